@@ -152,6 +152,9 @@ fn run_scn(out: &mut Out, rng: &mut Rng, pool: &Pool, path: &str) {
                     let mut taken = vec![];
                     while let Some(b) = rx.ev_take(out) {
                         taken.push(b);
+                        if taken.len() > 16 {
+                            break;
+                        }
                     }
                     let t = ev_encap(out, &mut enc, pdu, 1, label_of(arg), 0x0800, 64, None, None);
                     feed_tx(out, &mut rx, &t);
@@ -270,6 +273,9 @@ pub fn run(out: &mut Out, seed: u64, thorough: bool, scn: Option<&str>) {
                         // no storage at all
                         while let Some(x) = rx.ev_take(out) {
                             taken.push(x);
+                            if taken.len() > 16 {
+                                break;
+                            }
                         }
                         mk(&[7; 8], 0x0800, vec![])
                     }
